@@ -220,6 +220,12 @@ func RunWorker(spec WorkerSpec) *WorkerResult {
 	if spec.Count == 0 {
 		res.Completed = true
 	}
+	if longJumps[0] > 0 {
+		st.Probes["loop_jump_over_127_positions"] += longJumps[0]
+	}
+	if longJumps[1] > 0 {
+		st.Probes["loop_jump_over_255_positions"] += longJumps[1]
+	}
 	res.WallS = time.Since(t0).Seconds()
 	return res
 }
